@@ -78,7 +78,8 @@ Section PyDecoder.
 
   (* MessageHeader.validate_crc(self._buffer): False = it raised *)
   Definition PyDecoder_validate_crc (h : header) (b : list N) : bool :=
-    if N.ltb maxe (h_psize h) then false
+    if N.ltb maxe (h_psize h) then false                                          (* sanity limit *)
+    else if N.ltb (N.of_nat (length b)) (N.of_nat HEADER_SIZE + h_psize h) then false  (* "Not enough data to validate CRC" *)
     else N.eqb (crc32 (sub b 8 (HEADER_SIZE + N.to_nat (h_psize h) - 8))) (h_crc h).
 
   Inductive PyDecoder_step_res :=
